@@ -20,6 +20,10 @@ type pathEnd struct {
 	msg  string
 }
 
+type opaqueCall struct{}
+
+var opaqueT = types.NewNamed(types.NewTypeName(token.NoPos, nil, "symgo.opaque", nil), types.NewStruct(nil, nil), nil)
+
 type blockSignal struct{}
 type resumeUnwind struct{}
 
@@ -187,7 +191,14 @@ func (in *Interp) resetRun(prefix []int) {
 }
 
 func (in *Interp) unsupported(format string, a ...interface{}) {
-	panic(pathEnd{kind: "unsupported", msg: fmt.Sprintf(format, a...)})
+	msg := fmt.Sprintf(format, a...)
+	if in.cur != nil && len(in.cur.frames) > 0 {
+		msg += " in " + in.cur.frames[len(in.cur.frames)-1].fn.String()
+		if len(in.cur.frames) > 1 {
+			msg += " <- " + in.cur.frames[len(in.cur.frames)-2].fn.String()
+		}
+	}
+	panic(pathEnd{kind: "unsupported", msg: msg})
 }
 
 func posStr(prog *ssa.Program, p token.Pos) string {
@@ -382,6 +393,26 @@ func (in *Interp) callFn(g *Goroutine, fn *ssa.Function, args []Value, fv []Valu
 		if intr, ok := rtIntrinsics[fn.Name()]; ok && isRT(fn, in.prog) {
 			return intr(in, &callCtx{g: g, fn: fn, args: args, retTo: retTo}), true
 		}
+	}
+	if fn.Pkg != nil && fn.Name() == "init" && fn.Synthetic != "" && fn.Signature.Recv() == nil {
+		if in.inited[fn.Pkg] && len(g.frames) > 0 && g.frames[len(g.frames)-1].fn != fn {
+			// already initialised (or in progress) through ensureInit
+		}
+		in.inited[fn.Pkg] = true
+		if !initAllowed(fn.Pkg.Pkg.Path()) {
+			return nil, true
+		}
+	}
+	if fn.Blocks == nil && strings.Contains(fn.Name(), "runtime_") && !strings.Contains(fn.Name(), "Semacquire") {
+		in.stubsHit["noop:"+name]++
+		res := fn.Signature.Results()
+		switch res.Len() {
+		case 0:
+			return nil, true
+		case 1:
+			return in.zero(res.At(0).Type()), true
+		}
+		return in.zero(res), true
 	}
 	if fn.Blocks == nil {
 		// method wrappers and generic instances are built lazily by go/ssa; anything
@@ -1053,6 +1084,9 @@ func (in *Interp) prepareCall(g *Goroutine, fr *Frame, c *ssa.CallCommon) (Value
 			in.goPanic(g, "nil", "nil pointer dereference (method call on nil interface "+c.Method.Name()+")", nil)
 			return nil, nil
 		}
+		if recv.t == opaqueT {
+			return opaqueCall{}, nil
+		}
 		fn := in.lookupMethod(recv.t, c.Method)
 		fv = &Closure{fn: fn}
 		args = append(args, recv.v)
@@ -1084,6 +1118,24 @@ func (in *Interp) execCall(g *Goroutine, fr *Frame, x ssa.Value, c *ssa.CallComm
 		return
 	}
 	switch f := fv.(type) {
+	case opaqueCall:
+		// method on an opaque environment value (only reachable from package initialisers)
+		rt := c.Signature().Results()
+		var rv Value
+		switch rt.Len() {
+		case 0:
+		case 1:
+			if _, ok := rt.At(0).Type().Underlying().(*types.Interface); ok {
+				rv = Iface{t: opaqueT}
+			} else {
+				rv = in.zero(rt.At(0).Type())
+			}
+		default:
+			rv = in.zero(rt)
+		}
+		if x != nil {
+			in.set(fr, x, rv)
+		}
 	case BuiltinV:
 		v := in.builtin(g, f.b.Name(), args, c)
 		if g.panic == nil && x != nil {
